@@ -65,6 +65,8 @@ func init() {
 }
 
 func runC06(p *chk.Prog, r *chk.Report) {
+	c06ReloadOnly(p, r)
+	fetchCheckedRule(p, r)
 	c06Gate(p, r)
 	c06Order(p, r)
 	syncStateRule(p, r)
@@ -706,4 +708,56 @@ func c06ReadoptFirst(p *chk.Prog, r *chk.Report) {
 		}
 	}
 	x.Check("reprocessAll:readopt-pass-before-allocating-pass", calls[0].Pos(), ok, "", "the first full pass hands every Service to the allocating handler ("+strings.Join(allocs, ", ")+" are reachable from it) while recorded addresses of later Services are not yet re-adopted: a Service that needs a fresh address during that pass can be given an address another Service records")
+}
+
+// c06ReloadOnly (shared with C03): the pass that opens the restart gate runs only for a reload request. In the
+// controller reload requests come from the pool reconciler after SetPools, so the first full pass always sees the
+// pools; a full pass started from a per-Service event can run while no pool is known - every handler answers success
+// without registering anything - and opens the gate over an empty allocator.
+func c06ReloadOnly(p *chk.Prog, r *chk.Report) {
+	x := r.Rule("RELOAD-ONLY", "D who-may-call + B path", "(*ServiceReconciler).reprocessAll is called only from (*ServiceReconciler).Reconcile, where the choice between it and reconcileService reads nothing but the request (the receiver occurs in Reconcile only as the receiver of those two calls, and the full pass is conditional); nothing takes it as a function value", 1)
+	f := need(x, p, ctrlPkg, "ServiceReconciler", "reprocessAll")
+	if f == nil {
+		return
+	}
+	n := 0
+	for _, cs := range p.CallersOf(f) {
+		n++
+		cf := cs.Fn
+		okCaller := cf.Name() == "(*"+ctrlPkg+".ServiceReconciler).Reconcile"
+		g := cf.Graph()
+		sites := g.Find(func(nd ast.Node) bool { return nd == ast.Node(cs.Call) })
+		okGuard := false
+		if okCaller && len(sites) == 1 {
+			// the choice between the full pass and the per-Service path is a function of the request alone: Reconcile
+			// reads nothing of the reconciler's state - the receiver occurs only as the receiver of the two calls - and
+			// the full pass is not unconditional. However the reload marker is spelt (two string comparisons, a comparison
+			// of the namespaced name with a package-level key, a helper), per-Service requests cannot reach it by way of
+			// what the reconciler has seen so far.
+			recv := cf.Recv()
+			okGuard = recv != nil
+			ast.Inspect(cf.Body, func(nd ast.Node) bool {
+				id, isId := nd.(*ast.Ident)
+				if !isId || recv == nil || cf.ObjOf(id) != types.Object(recv) {
+					return true
+				}
+				sel, isSel := p.Parent(id).(*ast.SelectorExpr)
+				call, isCall := p.Parent(sel).(*ast.CallExpr)
+				if !isSel || !isCall || ast.Unparen(call.Fun) != ast.Expr(sel) || (sel.Sel.Name != "reprocessAll" && sel.Sel.Name != "reconcileService") {
+					okGuard = false
+				}
+				return true
+			})
+			// some request does not start the full pass
+			if !g.MustPass(chk.Site{}, nil, true, func(nd ast.Node) bool { return nd == sites[0].Top }).Found {
+				okGuard = false
+			}
+			// ... and it is the request being reconciled that is handed on
+			if len(cs.Call.Args) != 2 || !isParamIdx(cf, 1)(cs.Call.Args[1]) {
+				okGuard = false
+			}
+		}
+		x.Check("reprocessAll:called-for-reload-requests-only@"+cf.Name(), cs.Call.Pos(), okCaller && okGuard, "", "the full pass over all Services (which opens the restart gate) can be started by something other than a reload request: before the pools were delivered it registers nothing, reports success and lets per-Service events allocate addresses that unprocessed Services record")
+	}
+	x.Check("reprocessAll:callers", f.Pos(), n >= 1 && len(p.FuncValueUses(chk.ObjName(f.Obj))) == 0, "", "reprocessAll has no caller, or is passed around as a value")
 }
